@@ -34,6 +34,21 @@ type faultRun struct {
 	attemptFrom    int // op log window of the attempt
 	attemptTo      int
 	sawIOFailure   bool
+	// number of injected faults when the running transaction began: an I/O
+	// error surfacing in a transaction must stem from an I/O call that failed
+	// while that transaction was open (errors do not leak between transactions)
+	injectedAtBegin int
+}
+
+// staleIOError reports an I/O error that surfaced although no I/O call failed
+// since the transaction began.
+func (fr *faultRun) staleIOError(where string, err error) bool {
+	w := fr.w
+	if err == nil || !isIOErr(err) || w.Disk.AddressSpaceExceeded || w.Disk.Injected() != fr.injectedAtBegin {
+		return false
+	}
+	w.violate("stale-io-error", "stale-io-error:"+where, "%s failed with an I/O error (%s) although no I/O call failed since this transaction began (injected faults so far: %d): the error of an earlier, aborted transaction leaked into this one", where, allKinds(err), fr.injectedAtBegin)
+	return true
 }
 
 func (fr *faultRun) hook(name string, arg int) {
@@ -127,6 +142,7 @@ func (fr *faultRun) execFaulty(op Op) bool {
 				return false
 			}
 		}
+		fr.injectedAtBegin = w.Disk.Injected()
 		return w.Begin(txfile.TxOptions{EnableOverflowArea: op.A&1 != 0, WALLimit: uint(op.B), MetaAreaGrowPercentage: op.C})
 	}
 	if w.Tx == nil {
@@ -147,6 +163,9 @@ func (fr *faultRun) execFaulty(op Op) bool {
 			w.failed = false
 			fr.sawIOFailure = true
 			w.tracef("op %v -> io error (%s)", op, allKinds(w.lastErr))
+			if fr.staleIOError(fmt.Sprintf("%v", op.K), w.lastErr) {
+				return false
+			}
 			return fr.abortTx() && fr.afterTx()
 		}
 	}
@@ -195,6 +214,9 @@ func (fr *faultRun) commitFaulty() bool {
 	}
 	w.Aborts++
 	w.tracef("commit -> error (%s)", allKinds(err))
+	if fr.staleIOError("Commit", err) {
+		return false
+	}
 	if !isIOErr(err) && !(w.Cfg.MaxPages > 0) {
 		// an error without I/O cause on an unbounded file
 		if !fr.sawIOFailureSince(seqBefore) {
